@@ -103,7 +103,41 @@ func isErrorType(t types.Type) bool {
 	return false
 }
 
-func typeKey(t types.Type) string { return types.TypeString(t, nil) }
+// typeKey names a type; alias names (type A = B) are resolved first, so that one type never gets two heap keys.
+func typeKey(t types.Type) string { return types.TypeString(canonType(t), nil) }
+
+func canonType(t types.Type) types.Type {
+	switch x := types.Unalias(t).(type) {
+	case *types.Pointer:
+		if e := canonType(x.Elem()); e != x.Elem() {
+			return types.NewPointer(e)
+		}
+		return x
+	case *types.Slice:
+		if e := canonType(x.Elem()); e != x.Elem() {
+			return types.NewSlice(e)
+		}
+		return x
+	case *types.Array:
+		if e := canonType(x.Elem()); e != x.Elem() {
+			return types.NewArray(e, x.Len())
+		}
+		return x
+	case *types.Map:
+		k, v := canonType(x.Key()), canonType(x.Elem())
+		if k != x.Key() || v != x.Elem() {
+			return types.NewMap(k, v)
+		}
+		return x
+	case *types.Chan:
+		if e := canonType(x.Elem()); e != x.Elem() {
+			return types.NewChan(x.Dir(), e)
+		}
+		return x
+	default:
+		return x
+	}
+}
 
 func (e *Engine) leaves(t types.Type) []Leaf {
 	ts := typeKey(t)
